@@ -143,6 +143,10 @@ impl Scenario for Pipe {
       *last.lock().unwrap_or_else(|e| e.into_inner()) = String::new();
       // drop the handles while logging is off (destructors take locks)
       facade::set_logging(false);
+      // let go of every handle the harness holds (named observables, subjects, connectables, subscriptions): the
+      // instrumented sources record into `sh`, so a named observable inside `sh` would keep `sh` alive (a cycle of the
+      // harness's own making) if the environment were not emptied explicitly
+      let _ = step(&sh, &Sexp::List(vec![Sexp::Atom("drop".into())]));
       drop(sh);
       facade::set_logging(true);
       // C17: every subscription has ended and every handle of the harness is gone: what is still alive is owned by
